@@ -79,9 +79,9 @@ theorem redoN_inv3 : ∀ (k : Nat) {H : Home} {N : Int} {ρ : Ticket → Ticket}
 
 /-- the initial invariant: nothing is known (or needed) about the stacks -/
 theorem inv3_init {H : Home} {h : Hist} (w : WF H h.doc) (bd : Bounded h.doc h.lamport)
-    (pl : PlainArrs h.doc h.lamport) (twb : ∀ t, h.tw t = true → t.lamport ≤ h.lamport) (h0 : 0 ≤ h.lamport) :
+    (pl : PlainArrs h.doc h.lamport) (h0 : 0 ≤ h.lamport) :
     Inv3 H h.lamport id h [] [] [] h.doc [] :=
-  { wf := w, bd := bd, pl := pl, hN := Int.le_refl _, hN0 := h0, twb := twb, wfc := w, bdc := bd, plc := pl,
+  { wf := w, bd := bd, pl := pl, hN := Int.le_refl _, hN0 := h0, wfc := w, bdc := bd, plc := pl,
     eskel := fun _ => rfl, sim := Sim.refl _ _, rfix := fun _ _ => rfl, rhead := rfl, rng := fun _ ht => ht,
     rnew := fun _ _ => Or.inl rfl, rarr := fun _ _ h => absurd rfl h, hundo := ⟨h.undo, rfl⟩, hredo := ⟨h.redo, rfl⟩, chU := trivial, chR := trivial,
     uniqU := List.nodup_nil, uniqR := List.nodup_nil, uniqD := fun _ ha => by simp [addIds] at ha,
@@ -102,13 +102,13 @@ theorem root_lamport3 {h : Hist} (bd : Bounded h.doc h.lamport) (root : skel h.d
 
 /-- depth `k`: after the edits `a ++ b`, undoing `|b|` times prints the content after `a` -/
 theorem undo_run_marshal3 {H : Home} {h : Hist} (w : WF H h.doc) (bd : Bounded h.doc h.lamport)
-    (pl : PlainArrs h.doc h.lamport) (twb : ∀ t, h.tw t = true → t.lamport ≤ h.lamport)
+    (pl : PlainArrs h.doc h.lamport)
     (root : skel h.doc rootId = some false) (a b : List MEdit) (ok : MEditsOk H h (a ++ b))
     (hb : b.length ≤ maxDepth) (fuel : Nat) :
     marshal (undoN b.length (runMEdits h (a ++ b))).doc fuel rootId = marshal (runMEdits h a).doc fuel rootId := by
   have h0 := root_lamport3 bd root
   obtain ⟨ru, rr, past, fut, i, hch, hsk, hlen, _, _⟩ :=
-    run_inv3 (a ++ b) h [] [] [] [] 0 (inv3_init w bd pl twb h0) ok (by simp)
+    run_inv3 (a ++ b) h [] [] [] [] 0 (inv3_init w bd pl h0) ok (by simp)
   have hpl : past.length = (a ++ b).length := by
     have := congrArg List.length hch
     simp [mstates_length] at this; simpa using this
@@ -125,13 +125,13 @@ theorem undo_run_marshal3 {H : Home} {h : Hist} (w : WF H h.doc) (bd : Bounded h
     exact (Option.some.inj h1).symm
   subst hcur
   obtain ⟨_, _, _, _, _, _, hska, _, _, _⟩ :=
-    run_inv3 a h [] [] [] [] 0 (inv3_init w bd pl twb h0) (MEditsOk_append ok).1 (by simp)
+    run_inv3 a h [] [] [] [] 0 (inv3_init w bd pl h0) (MEditsOk_append ok).1 (by simp)
   exact i'.marshal ((hska rootId).trans root) fuel
 
 /-- depth `k` redo: after the edits `a ++ b ++ c`, undoing `|b ++ c|` times and redoing `|b|` times prints
     the content after `a ++ b` -/
 theorem redo_run_marshal3 {H : Home} {h : Hist} (w : WF H h.doc) (bd : Bounded h.doc h.lamport)
-    (pl : PlainArrs h.doc h.lamport) (twb : ∀ t, h.tw t = true → t.lamport ≤ h.lamport)
+    (pl : PlainArrs h.doc h.lamport)
     (root : skel h.doc rootId = some false) (a b c : List MEdit) (ok : MEditsOk H h (a ++ (b ++ c)))
     (hb : (b ++ c).length ≤ maxDepth) (fuel : Nat) :
     marshal (redoN b.length (undoN (b ++ c).length (runMEdits h (a ++ (b ++ c))))).doc fuel rootId =
@@ -139,7 +139,7 @@ theorem redo_run_marshal3 {H : Home} {h : Hist} (w : WF H h.doc) (bd : Bounded h
   have h0 := root_lamport3 bd root
   have hb' : b.length + c.length ≤ maxDepth := by simpa using hb
   obtain ⟨ru, rr, past, fut, i, hch, hsk, hlen, _, hnil⟩ :=
-    run_inv3 (a ++ (b ++ c)) h [] [] [] [] 0 (inv3_init w bd pl twb h0) ok (by simp)
+    run_inv3 (a ++ (b ++ c)) h [] [] [] [] 0 (inv3_init w bd pl h0) ok (by simp)
   have hpl : past.length = a.length + (b.length + c.length) := by
     have := congrArg List.length hch
     simp [mstates_length] at this; simpa using this
@@ -172,7 +172,7 @@ theorem redo_run_marshal3 {H : Home} {h : Hist} (w : WF H h.doc) (bd : Bounded h
     subst hcur
     have ok' : MEditsOk H h ((a ++ b) ++ c) := by rw [List.append_assoc]; exact ok
     obtain ⟨_, _, _, _, _, _, hska, _, _, _⟩ :=
-      run_inv3 (a ++ b) h [] [] [] [] 0 (inv3_init w bd pl twb h0) (MEditsOk_append ok').1 (by simp)
+      run_inv3 (a ++ b) h [] [] [] [] 0 (inv3_init w bd pl h0) (MEditsOk_append ok').1 (by simp)
     exact i''.marshal ((hska rootId).trans root) fuel
 
 end Yorkie.Undo
